@@ -512,7 +512,7 @@ func (f *frame) makeInterface(v Val, t types.Type) Term {
 	switch types.Unalias(t).Underlying().(type) {
 	case *types.Pointer, *types.Map, *types.Chan, *types.Signature:
 		r := f.asTerm(v)
-		c.assume(implies(not(eq(r, tNil)), eq(mk(SInt, "typeof", r), tid)))
+		c.assume(implies(and(f.guard, not(eq(r, tNil))), eq(mk(SInt, "typeof", r), tid)))
 		c.assumed["a nil pointer stored in an interface is identified with the nil interface"] = true
 		return r
 	case *types.Interface:
